@@ -14,13 +14,16 @@ import (
 
 // ---- profile generator for C10: rich enough that every mutating option changes some report ----
 
+// file names are multi-component absolute build paths: c10PathPrefix + "/src/<pkg>/<file>.go"
+const c10PathPrefix = "/build/remote/checkout/proj"
+
 var c10FuncPool = []struct{ name, file string }{
-	{"main.main", "/src/app/main.go"}, {"main.run", "/src/app/main.go"},
-	{"app.Handle", "/src/app/handler.go"}, {"app.parse", "/src/app/handler.go"},
-	{"lib.Alloc", "/src/lib/alloc.go"}, {"lib.Free", "/src/lib/alloc.go"},
-	{"runtime.mallocgc", "/src/runtime/malloc.go"}, {"runtime.gcBgMarkWorker", "/src/runtime/malloc.go"},
-	{"util.Sort", "/src/util/sort.go"}, {"util.hash", "/src/util/sort.go"},
-	{"db.Query", "/src/db/query.go"}, {"db.scan", "/src/db/query.go"},
+	{"main.main", c10PathPrefix + "/src/app/main.go"}, {"main.run", c10PathPrefix + "/src/app/main.go"},
+	{"app.Handle", c10PathPrefix + "/src/app/handler.go"}, {"app.parse", c10PathPrefix + "/src/app/handler.go"},
+	{"lib.Alloc", c10PathPrefix + "/src/lib/alloc.go"}, {"lib.Free", c10PathPrefix + "/src/lib/alloc.go"},
+	{"runtime.mallocgc", c10PathPrefix + "/src/runtime/malloc.go"}, {"runtime.gcBgMarkWorker", c10PathPrefix + "/src/runtime/malloc.go"},
+	{"util.Sort", c10PathPrefix + "/src/util/sort.go"}, {"util.hash", c10PathPrefix + "/src/util/sort.go"},
+	{"db.Query", c10PathPrefix + "/src/db/query.go"}, {"db.scan", c10PathPrefix + "/src/db/query.go"},
 }
 
 var c10TypeSets = [][][2]string{
@@ -113,15 +116,19 @@ func c10GenProfileSized(r *Rng, ns, depth int) *profile.Profile {
 }
 
 // c10SourceTrees: the scratch source trees of a case, relative to the case directory. The profile's file
-// names are absolute ("/src/app/main.go"); pprof finds sources by (a) trim_path, or (b) the heuristic
-// "strip everything up to /<basename of a source_path directory>/", or (c) joining source_path with the
-// full name. Every tree below therefore yields DIFFERENT trimmed file names and different file contents:
-//   srcroot/src/<pkg>/<file>   found through (c) with source_path=../srcroot, names untrimmed
-//   trees/a/src/<pkg>/<file>   basename "src"  → names become <pkg>/<file>
-//   trees/b/app/<file>         basename "app"  → only /src/app/… names become <file>
-//   trees/c/lib/<file>         basename "lib"  → only /src/lib/… names become <file>
+// names are absolute multi-component build paths ("/build/remote/checkout/proj/src/app/main.go"); pprof
+// finds sources by (a) trim_path, or (b) the heuristic "strip everything up to /<basename of a source_path
+// directory>/", or (c) joining source_path with the full name. Every tree below therefore yields DIFFERENT
+// trimmed file names and has different file contents:
+//   srcroot/<full name>              found through (c) with source_path=../srcroot, names untrimmed
+//   trees/a/src/<pkg>/<file>         basename "src"      → names become <pkg>/<file>
+//   trees/b/app/<file>               basename "app"      → only …/src/app/… names become <file>
+//   trees/c/lib/<file>               basename "lib"      → only …/src/lib/… names become <file>
+//   trees/d/proj/src/<pkg>/<file>    basename "proj"     → names become src/<pkg>/<file>
+//   trees/e/checkout/proj/src/…      basename "checkout" → names become proj/src/<pkg>/<file>
+//   trees/f/other/…                  basename occurs in no file name (nothing trimmed, nothing found)
 func c10SourceTrees(p *profile.Profile) map[string]string {
-	out := map[string]string{}
+	out := map[string]string{"trees/f/other/readme.txt": "no sources here\n"}
 	text := func(tree, name string) string {
 		var b bytes.Buffer
 		for i := 1; i <= 60; i++ {
@@ -131,23 +138,26 @@ func c10SourceTrees(p *profile.Profile) map[string]string {
 	}
 	for _, f := range p.Function {
 		n := f.Filename
-		if n == "" || !strings.HasPrefix(n, "/src/") {
+		rel := strings.TrimPrefix(n, c10PathPrefix) // "/src/<pkg>/<file>" (older corpus profiles have no prefix)
+		if n == "" || !strings.HasPrefix(rel, "/src/") {
 			continue
 		}
 		out["srcroot"+n] = text("root", n)
-		out["trees/a"+n] = text("a", n)
-		if strings.HasPrefix(n, "/src/app/") {
-			out["trees/b/app/"+strings.TrimPrefix(n, "/src/app/")] = text("b", n)
+		out["trees/a"+rel] = text("a", n)
+		out["trees/d/proj"+rel] = text("d", n)
+		out["trees/e/checkout/proj"+rel] = text("e", n)
+		if strings.HasPrefix(rel, "/src/app/") {
+			out["trees/b/app/"+strings.TrimPrefix(rel, "/src/app/")] = text("b", n)
 		}
-		if strings.HasPrefix(n, "/src/lib/") {
-			out["trees/c/lib/"+strings.TrimPrefix(n, "/src/lib/")] = text("c", n)
+		if strings.HasPrefix(rel, "/src/lib/") {
+			out["trees/c/lib/"+strings.TrimPrefix(rel, "/src/lib/")] = text("c", n)
 		}
 	}
 	return out
 }
 
-var c10SourcePaths = []string{"../trees/a/src", "../trees/b/app", "../trees/c/lib", "../srcroot", "../trees/b/app:../trees/c/lib", "../trees/c/lib:../trees/a/src", "", "/nonexistent"}
-var c10TrimPaths = []string{"", "", "/src", "/src/app", "/src/lib", "/zzz"}
+var c10SourcePaths = []string{"../trees/a/src", "../trees/b/app", "../trees/d/proj", "../trees/e/checkout", "../trees/c/lib", "../srcroot", "../trees/b/app:../trees/c/lib", "../trees/c/lib:../trees/a/src", "../trees/f/other", "", "/nonexistent"}
+var c10TrimPaths = []string{"", "", c10PathPrefix + "/src", c10PathPrefix + "/src/app", c10PathPrefix, "/build/remote", "/src", "/zzz"}
 
 // ---- script generator ----
 
@@ -370,8 +380,8 @@ func c10Toggles(types []string) []c10Toggle {
 	fileSetup := []string{"granularity=files", "granularity=lines", "granularity=filefunctions", "granularity=addresses", "lines=1"}
 	any := []string{"top", "tree", "peek .", "traces", "text 30 -cum", "dot", "tags", "raw", "topproto >tp.out", "proto >p.out", "callgrind >cg.out"}
 	t := []c10Toggle{
-		{"source_path", c10SourcePaths[:6], fileProbes, fileSetup},
-		{"trim_path", []string{"", "/src", "/src/app", "/src/lib"}, fileProbes, append([]string{"source_path=../trees/a/src", "source_path=../srcroot", "source_path=../trees/b/app"}, fileSetup...)},
+		{"source_path", c10SourcePaths[:9], fileProbes, fileSetup},
+		{"trim_path", []string{"", c10PathPrefix + "/src", c10PathPrefix + "/src/app", c10PathPrefix, "/build/remote"}, fileProbes, append([]string{"source_path=../trees/a/src", "source_path=../srcroot", "source_path=../trees/b/app"}, fileSetup...)},
 		{"unit", c10Units, []string{"top", "tree", "peek .", "traces", "tags", "dot", "list ."}, nil},
 		{"divide_by", []string{"1", "2", "0.5", "10"}, any, nil},
 		{"tagroot", []string{"req", "tenant", "req,tenant", "bytes", ""}, any, nil},
@@ -561,10 +571,10 @@ func (r *Rng) c10WebRequest(types []string) string {
 func (r *Rng) c10WebFlags() map[string]string {
 	f := map[string]string{}
 	if r.Chance(70) {
-		f["source_path"] = r.Pick([]string{"@TREES@/trees/a/src", "@TREES@/trees/b/app", "@TREES@/srcroot", "@TREES@/trees/b/app:@TREES@/trees/c/lib"})
+		f["source_path"] = r.Pick([]string{"@TREES@/trees/a/src", "@TREES@/trees/b/app", "@TREES@/trees/d/proj", "@TREES@/trees/e/checkout", "@TREES@/srcroot", "@TREES@/trees/b/app:@TREES@/trees/c/lib"})
 	}
 	if r.Chance(25) {
-		f["trim_path"] = r.Pick([]string{"/src", "/src/app"})
+		f["trim_path"] = r.Pick([]string{c10PathPrefix + "/src", c10PathPrefix + "/src/app", c10PathPrefix})
 	}
 	if r.Chance(25) {
 		f[r.Pick([]string{"tagroot", "tagleaf"})] = r.Pick([]string{"req", "tenant", "req,tenant"})
